@@ -623,6 +623,12 @@ class Executor:
         """False only if proven unsat; unknown counts as feasible."""
         if isinstance(cond, bool):
             return cond
+        bnd = st.tags.get("bnd")
+        if bnd and cond is not None:
+            r0 = decide_by_intervals(cond, bnd)
+            if r0 is not None:
+                self.count("interval_decisions")
+                return r0
         s = z3.Solver()
         nunk = st.tags.get("feas_unknowns", 0)
         # satisfiable non-linear queries tend to stay hard along a path: shrink the cap after repeated unknowns
@@ -649,6 +655,12 @@ class Executor:
             return cond
         if cond.get_id() in st.true_ids:
             return True
+        bnd = st.tags.get("bnd")
+        if bnd:
+            r0 = decide_by_intervals(cond, bnd)
+            if r0 is True:
+                self.count("interval_decisions")
+                return True
         s = z3.Solver()
         s.set("timeout", timeout_ms)
         for c in st.constraints():
@@ -2043,6 +2055,91 @@ class Executor:
 
 
 _VARS_CACHE = {}
+
+
+def interval(t, bnd, depth=0):
+    """(lo, hi) of an integer term from the registered variable bounds, or None"""
+    if is_conc(t):
+        return (int(t), int(t))
+    if depth > 40:
+        return None
+    if z3.is_int_value(t):
+        v = t.as_long()
+        return (v, v)
+    k = t.decl().kind()
+    if z3.is_const(t) and k == z3.Z3_OP_UNINTERPRETED:
+        return bnd.get(t.get_id(), (None,))[1:] if t.get_id() in bnd else None
+    ch = t.children()
+    if k == z3.Z3_OP_ADD:
+        lo = hi = 0
+        for c in ch:
+            r = interval(c, bnd, depth + 1)
+            if r is None:
+                return None
+            lo += r[0]
+            hi += r[1]
+        return (lo, hi)
+    if k == z3.Z3_OP_SUB and len(ch) == 2:
+        a, b = interval(ch[0], bnd, depth + 1), interval(ch[1], bnd, depth + 1)
+        if a is None or b is None:
+            return None
+        return (a[0] - b[1], a[1] - b[0])
+    if k == z3.Z3_OP_UMINUS:
+        a = interval(ch[0], bnd, depth + 1)
+        return None if a is None else (-a[1], -a[0])
+    if k == z3.Z3_OP_MUL and len(ch) == 2:
+        a, b = interval(ch[0], bnd, depth + 1), interval(ch[1], bnd, depth + 1)
+        if a is None or b is None:
+            return None
+        ps = [a[0] * b[0], a[0] * b[1], a[1] * b[0], a[1] * b[1]]
+        return (min(ps), max(ps))
+    if k == z3.Z3_OP_ITE:
+        a, b = interval(ch[1], bnd, depth + 1), interval(ch[2], bnd, depth + 1)
+        if a is None or b is None:
+            return None
+        return (min(a[0], b[0]), max(a[1], b[1]))
+    return None
+
+
+def decide_by_intervals(c, bnd, depth=0):
+    """True / False if the boolean term is decided by interval arithmetic over the registered bounds, else None"""
+    if isinstance(c, bool):
+        return c
+    if depth > 20:
+        return None
+    k = c.decl().kind()
+    ch = c.children()
+    if k in (z3.Z3_OP_LE, z3.Z3_OP_LT, z3.Z3_OP_GE, z3.Z3_OP_GT, z3.Z3_OP_EQ, z3.Z3_OP_DISTINCT) and len(ch) == 2 and z3.is_int(ch[0]):
+        a, b = interval(ch[0], bnd), interval(ch[1], bnd)
+        if a is None or b is None:
+            return None
+        if k == z3.Z3_OP_LE:
+            return True if a[1] <= b[0] else (False if a[0] > b[1] else None)
+        if k == z3.Z3_OP_LT:
+            return True if a[1] < b[0] else (False if a[0] >= b[1] else None)
+        if k == z3.Z3_OP_GE:
+            return True if a[0] >= b[1] else (False if a[1] < b[0] else None)
+        if k == z3.Z3_OP_GT:
+            return True if a[0] > b[1] else (False if a[1] <= b[0] else None)
+        disjoint = a[1] < b[0] or b[1] < a[0]
+        same = a[0] == a[1] == b[0] == b[1]
+        if k == z3.Z3_OP_EQ:
+            return False if disjoint else (True if same else None)
+        return True if disjoint else (False if same else None)
+    if k == z3.Z3_OP_NOT:
+        r = decide_by_intervals(ch[0], bnd, depth + 1)
+        return None if r is None else (not r)
+    if k == z3.Z3_OP_AND:
+        rs = [decide_by_intervals(x, bnd, depth + 1) for x in ch]
+        if any(r is False for r in rs):
+            return False
+        return True if all(r is True for r in rs) else None
+    if k == z3.Z3_OP_OR:
+        rs = [decide_by_intervals(x, bnd, depth + 1) for x in ch]
+        if any(r is True for r in rs):
+            return True
+        return False if all(r is False for r in rs) else None
+    return None
 
 
 class Cut:
